@@ -12,6 +12,7 @@ struct grid_access : public colvar_grid_scalar {
 };
 
 static grid_access *G = nullptr;
+static std::vector<size_t> Gcounts;   // g.counts: one count per grid point (for gradient grids linked to a count grid)
 
 bool ops_c15(Ctx &c, Toks const &t)
 {
@@ -83,6 +84,89 @@ bool ops_c15(Ctx &c, Toks const &t)
   if (t[0] == "g.fill") {       // g.fill v0 v1 ... : the data array, in address order
     for (size_t i = 1; i < t.size() && i - 1 < G->data.size(); i++) G->data[i - 1] = f_of(t[i]);
     G->has_data = true;
+    return true;
+  }
+  if (t[0] == "g.counts") {     // g.counts c0 c1 ... : number of samples per grid point, in address order
+    Gcounts.clear();
+    for (size_t i = 1; i < t.size(); i++) Gcounts.push_back((size_t) i_of(t[i]));
+    return true;
+  }
+  if (t[0] == "g.rtgrad") {     // g.rtgrad multicol|multicoladd|restart|restartbin|raw|rawbin [nocount]
+    // G (multiplicity = number of variables) holds gradient sums; a colvar_grid_gradient with (or without) its count grid is
+    // written and read back into a fresh pair of grids built on the same variables.  "multicoladd" reads with add = true into grids
+    // that already hold `pre` times the written data (the inputPrefix path of ABF).
+    cvm::clear_error();
+    std::string const kind = t[1];
+    bool const with_count = !(t.size() > 2 && t[2] == "nocount");
+    bool ok = true;
+    static long nrg = 0;
+    std::vector<colvar *> cvs;
+    std::string conf;
+    for (size_t i = 0; i < G->nd; i++) {
+      std::string const name = "rg" + std::to_string(nrg) + "_" + std::to_string(i);
+      conf += "colvar {\n name " + name + "\n lowerBoundary " + num17(G->lower_boundaries[i].real_value) + "\n upperBoundary " +
+        num17(G->lower_boundaries[i].real_value + G->nx[i] * G->widths[i]) + "\n width " + num17(G->widths[i]) +
+        "\n distanceZ {\n main { atomNumbers 1 }\n ref { dummyAtom (0.0, 0.0, 0.0) }\n axis (0.0, 0.0, 1.0)\n }\n}\n";
+    }
+    c.proxy->colvars->read_config_string(conf);
+    cvm::clear_error();
+    for (size_t i = 0; i < G->nd; i++) {
+      colvar *cv = cvm::colvar_by_name("rg" + std::to_string(nrg) + "_" + std::to_string(i));
+      if (cv) cvs.push_back(cv);
+    }
+    nrg++;
+    std::vector<cvm::real> rdata; std::vector<size_t> rcnt; std::vector<int> rnx;
+    if (cvs.size() == G->nd && G->mult == G->nd) {
+      std::shared_ptr<colvar_grid_count> cA, cB;
+      if (with_count) { cA.reset(new colvar_grid_count(cvs)); cB.reset(new colvar_grid_count(cvs)); }
+      colvar_grid_gradient A(cvs, cA), B(cvs, cB);
+      if (A.data.size() == G->data.size() && (!with_count || cA->data.size() == Gcounts.size())) {
+        A.data = G->data; A.has_data = true;
+        if (with_count) { cA->data = Gcounts; cA->has_data = true; }
+        std::string const dir = std::string(getenv("CV_SCRATCH") ? getenv("CV_SCRATCH") : "/tmp");
+        std::string const fg = dir + "/c15_rg_" + std::to_string((long) getpid()) + ".grad", fc = dir + "/c15_rg_" + std::to_string((long) getpid()) + ".count";
+        if (kind == "multicol" || kind == "multicoladd") {
+          bool const add = (kind == "multicoladd");
+          if (add) {   // the reading grids already hold the same data once
+            B.data = G->data; B.has_data = true;
+            if (with_count) { cB->data = Gcounts; cB->has_data = true; }
+          }
+          { std::ofstream os(fg.c_str()); os.precision(17); A.write_multicol(os); }
+          if (with_count) { std::ofstream os(fc.c_str()); cA->write_multicol(os); }
+          if (with_count) ok = ok && (cB->read_multicol(fc, "count file", add) == COLVARS_OK);
+          ok = ok && (B.read_multicol(fg, "gradient file", add) == COLVARS_OK);
+          std::remove(fg.c_str()); std::remove(fc.c_str());
+        } else if (kind == "restart") {     // (counts first: a gradient read is multiplied by the count of its point)
+          if (with_count) { std::ostringstream oc; cA->write_restart(oc); std::istringstream ic(oc.str()); ok = ok && (bool) cB->read_restart(ic); }
+          std::ostringstream os; os.precision(17); A.write_restart(os);
+          std::istringstream is(os.str()); ok = ok && (bool) B.read_restart(is);
+        } else if (kind == "restartbin") {
+          if (with_count) { cvm::memory_stream oc; cA->write_restart(oc); cvm::memory_stream ic(oc.length(), oc.output_buffer()); ok = ok && (bool) cB->read_restart(ic); }
+          cvm::memory_stream os; A.write_restart(os);
+          cvm::memory_stream is(os.length(), os.output_buffer()); ok = ok && (bool) B.read_restart(is);
+        } else if (kind == "raw") {
+          if (with_count) { std::ostringstream oc; cA->write_raw(oc, 3); std::istringstream ic(oc.str()); ok = ok && (bool) cB->read_raw(ic); }
+          std::ostringstream os; os.precision(17); A.write_raw(os, 3);
+          std::istringstream is(os.str()); ok = ok && (bool) B.read_raw(is);
+        } else {
+          if (with_count) { cvm::memory_stream oc; cA->write_raw(oc); cvm::memory_stream ic(oc.length(), oc.output_buffer()); ok = ok && (bool) cB->read_raw(ic); }
+          cvm::memory_stream os; A.write_raw(os);
+          cvm::memory_stream is(os.length(), os.output_buffer()); ok = ok && (bool) B.read_raw(is);
+        }
+        rdata = B.data; rnx = B.nx;
+        if (with_count) rcnt = cB->data;
+      } else ok = false;
+    } else ok = false;
+    for (size_t i = 0; i < cvs.size(); i++) delete cvs[i];
+    c.out("ok", itok(ok && cvm::get_error() == COLVARS_OK ? 1 : 0));
+    cvm::clear_error();
+    std::vector<std::string> o;
+    for (size_t i = 0; i < rnx.size(); i++) o.push_back(itok(rnx[i]));
+    c.out("nx", join(o));
+    o.clear(); for (size_t i = 0; i < rdata.size(); i++) o.push_back(ftok(rdata[i]));
+    c.out("data", join(o));
+    o.clear(); for (size_t i = 0; i < rcnt.size(); i++) o.push_back(itok((long long) rcnt[i]));
+    c.out("cnt", join(o));
     return true;
   }
   if (t[0] == "g.rt") {         // g.rt multicol|restart|raw|restartbin|rawbin : write, read back into a fresh grid, report it
